@@ -16,7 +16,7 @@ func init() {
 	register(&propDef{
 		id: "C20",
 		meta: propMeta{
-			explanation: "Decides the lock discipline behind 'never deadlocks or races on shared state' for every interleaving, because the rules hold per program point, not per schedule: (L1) the lock-order graph over all mutex fields of the module is acyclic, self-edges included - an edge A->B exists when some call made with A possibly held reaches (VTA call graph, through watcher dispatch and subscriber function values, not through `go`) a function that acquires B; (L2) every access to a field that the code documents as protected by a mutex ('mu protects the above fields', plus the sessions/sessionsMu pair) and every field access on the exclusively owned types (loadBalancer, nodeState, arrivalWindow, arrivalIntervals) happens with the owner's lock certainly held - helpers get their entry lockset from all their call sites - except in constructors and for fields never written after construction; (L3) exported methods of the guarded structs return copies, never a guarded map, slice or stored pointer; (L4) no channel operation, select, sleep, WaitGroup.Wait, dial or yamux session call is reachable with one of these locks held; (L5) subscriber callbacks of cluster.State run without State.mu; (L6) every unlock releases a lock that may be held and no path returns holding a lock it acquired without a deferred unlock; (L7) the registry/cluster/publication sequence runs under the manager mutex and only the manager drives it (C05.R4/R5), which with C04/C05 gives consistency at quiescence. Not decided: panic-freedom in general (C13.R3 covers the network-facing part), bounded completion time.",
+			explanation: "Decides the lock discipline behind 'never deadlocks or races on shared state' for every interleaving, because the rules hold per program point, not per schedule: (L1) the lock-order graph over all mutex fields of the module is acyclic, self-edges included - an edge A->B exists when some call made with A possibly held reaches (VTA call graph, through watcher dispatch and subscriber function values, not through `go`) a function that acquires B; (L2) every access to a field that the code documents as protected by a mutex ('mu protects the above fields', plus the sessions/sessionsMu pair) and every field access on the exclusively owned types (loadBalancer, nodeState, arrivalWindow, arrivalIntervals) happens with the owner's lock certainly held - helpers get their entry lockset from all their call sites - except in constructors and for fields never written after construction; (L3) exported methods of the guarded structs return copies, never a guarded map, slice or stored pointer; (L4) no channel operation, select, sleep, WaitGroup.Wait, dial or yamux session call is reachable with one of these locks held; (L5) subscriber callbacks of cluster.State run without State.mu; (L6) every unlock releases a lock that may be held and no path returns holding a lock it acquired without a deferred unlock; (L7) the registry/cluster/publication sequence runs under the manager mutex and only the manager drives it (C05.R4/R5), which with C04/C05 gives consistency at quiescence. Not decided: panic-freedom in general (C13.R3 covers the network-facing part), bounded completion time. Second round: (L8) single WebSocket writer/reader by who-may-call; (L9) no dereference of a failed checked lookup; (L10) a loop-refilled read buffer is never shared with a goroutine started in the loop; the C07 rule set runs with this check.",
 			ruleText:    "obligation = one lock-order edge / guarded access / return / blocking site / unlock; distinct = distinct keys",
 			assumptions: []string{"one abstract lock per mutex field: two instances of the same struct are never locked nested (no method of a guarded struct receives a second instance)", "VTA is sound for the indirect calls involved (no reflection/unsafe in the module: checked)", "third-party callees do not call back into piko except through function values visible to VTA"},
 		},
